@@ -1,11 +1,14 @@
 import QcelVerif.Model.FromArrays
+import QcelVerif.Gen.FromArraysSrc
 import QcelVerif.Lib.Proto
 /-!
 Line-protocol driver for the C04 model (`from_arrays`, `from_schema`).
 
 One case per line, 26 fields separated by `|`:
 
-  0 op `FA` | `FS`
+  0 op `FA` | `FS` (hand model Model/FromArrays.lean) | `FAs` | `FSs` (the same call answered by the pipeline whose geometry /
+    nuclei / fragment stages are the programs GENERATED from the source, Gen/FromArraysSrc.lean, run by the evaluator of
+    Model/FromArraysAst.lean; `src-untranslated` when the translator did not recognise the source)
   1 `minimal speclabel nonphysical zgf mtol tooclose angToAu`  (T/F and rationals, blank-separated)
   2 geom  3 elea  4 elez  5 elem  6 mass  7 real  8 elbl        (`~` absent | `L`item,item,…)
   9 name  10 comment  11 units  12 input_units_to_au  13 fix_com  14 fix_orientation  15 fix_symmetry
@@ -164,6 +167,15 @@ def step (line : String) : String :=
       let env : Env := { recon := tableRec tbl, angToAu := angToAu }
       if op == "FA" then
         pure (showRes (fromArrays env inp))
+      else if op == "FAs" then
+        pure (if Gen.progs.ok then showRes (Src.fromArraysWith Gen.progs env inp) else "src-untranslated")
+      else if op == "FSs" then do
+        let sname ← pOpt pChars? sname
+        let sver ← pOpt parseInt? sver
+        let frags ← pOptList pFrag? frags
+        pure (if Gen.progs.ok then
+          showRes (Src.fromSchemaWith Gen.progs env { schemaName := sname, schemaVersion := sver, fragments := frags, body := inp })
+          else "src-untranslated")
       else if op == "FS" then do
         let sname ← pOpt pChars? sname
         let sver ← pOpt parseInt? sver
